@@ -60,6 +60,7 @@ class BitmapHist : public Engine {
         Rng rng;
         Set m[NOBJ];
         std::vector<uint32_t> focus;
+        int is_run[NOBJ] = {0, 0, 0}; // the slot is (probably) a single-run container
         explicit GenState(uint64_t seed) : rng(seed) {}
     };
 
@@ -113,9 +114,14 @@ class BitmapHist : public Engine {
         if (len > 65535) len = 65535;
         uint32_t room = 65535 - len; // max <= 65535 (uint16_t argument)
         mn = r.chance(1, 4) ? (r.chance(1, 2) ? 0 : room) : (uint32_t)r.below((uint64_t)room + 1);
-        if (r.chance(1, 3)) { // start near a focus point
+        if (r.chance(1, 2)) { // start (or end) at, just after or just before a focus point
             uint32_t f = g.focus[r.below(g.focus.size())];
-            if (f <= room) mn = f;
+            long adj = (long)f + (long)r.below(5) - 2;
+            if (r.chance(1, 2)) {
+                if (adj >= 0 && adj <= (long)room) mn = (uint32_t)adj;
+            } else if (adj >= (long)len && adj <= 65535) {
+                mn = (uint32_t)adj - len; // the range ends there
+            }
         }
         mx = mn + len;
         if (r.chance(1, 12)) { // ranges touching both ends of the universe
@@ -125,8 +131,10 @@ class BitmapHist : public Engine {
             mx = e[1];
         }
         // later operations aim at the ends of this range
-        g.focus[r.below(g.focus.size())] = mx > 65535 ? 65535 : mx;
-        if (mn > 0) g.focus[r.below(g.focus.size())] = mn - 1;
+        // (rolling list: the oldest anchors are forgotten)
+        g.focus.push_back(mx > 65535 ? 65535 : mx);
+        g.focus.push_back(mn);
+        while (g.focus.size() > 14) g.focus.erase(g.focus.begin() + 5);
         if (r.chance(1, 40)) std::swap(mn, mx); // min >= max: documented no-op
         if (r.chance(1, 60)) mx = mn;
     }
@@ -155,14 +163,60 @@ class BitmapHist : public Engine {
         uint32_t total = 0;
         for (auto x : w) total += x;
         bool prev_big = false;
+        int prev_special = -1; // slot that was just cleared / cloned into / reloaded
+        int pending_perturb = 0, perturb_obj = 0, perturb_src = 0;
         for (size_t i = 0; i < nops; i++) {
             uint32_t t = (uint32_t)r.below(total), k = 0;
             while (t >= w[k]) t -= w[k++];
             // place work right after an operation that moved a lot of state
             if (prev_big && r.chance(1, 2)) k = r.chance(1, 2) ? ADD : REMOVE;
+            // a freshly cleared / cloned / reloaded object is used as an operand straight away
+            if (prev_special >= 0 && r.chance(2, 3)) k = r.chance(3, 4) ? BIN : (r.chance(1, 2) ? RELOAD : CLONE);
             prev_big = false;
             Op op;
             int o = (int)r.below(r.chance(2, 3) ? 1 : NOBJ);
+            int next_special = -1;
+            if (pending_perturb > 0) {
+                // remove a member / add a non-member of the clone, biased to its upper half
+                pending_perturb--;
+                o = perturb_obj;
+                bool rem = r.chance(1, 2) && g.m[o].any();
+                uint32_t v;
+                if (rem) {
+                    v = pick_member(g, o);
+                } else {
+                    v = pick_member(g, o);
+                    for (int t = 0; t < 40 && g.m[o][v]; t++) v = (v + 1 + (uint32_t)r.below(3)) & 0xffff;
+                }
+                op.kind = rem ? "remove" : "add";
+                op.set("obj", o);
+                op.set("v", v);
+                g.m[o].set(v, !rem);
+                p.ops.push_back(op);
+                if (pending_perturb == 0) { // now combine clone and origin
+                    Op b;
+                    static const char *names[] = {"or", "and", "xor", "andnot"};
+                    int which = (int)r.below(4);
+                    b.kind = names[which];
+                    int dst = (int)r.below(NOBJ);
+                    bool swap = r.chance(1, 2);
+                    int a = swap ? perturb_src : perturb_obj, bb = swap ? perturb_obj : perturb_src;
+                    b.set("dst", dst);
+                    b.set("a", a);
+                    b.set("b", bb);
+                    Set res;
+                    switch (which) {
+                    case 0: res = g.m[a] | g.m[bb]; break;
+                    case 1: res = g.m[a] & g.m[bb]; break;
+                    case 2: res = g.m[a] ^ g.m[bb]; break;
+                    default: res = g.m[a] & ~g.m[bb]; break;
+                    }
+                    g.m[dst] = res;
+                    p.ops.push_back(b);
+                    i++;
+                }
+                continue;
+            }
             switch (k) {
             case ADD: {
                 op.kind = "add";
@@ -183,9 +237,21 @@ class BitmapHist : public Engine {
             case ADDR:
             case REMR: {
                 op.kind = k == ADDR ? "add_range" : "remove_range";
+                if (k == ADDR && r.chance(1, 3)) // an empty slot becomes a run container
+                    for (int t = 0; t < NOBJ; t++)
+                        if (g.m[t].none()) o = t;
                 op.set("obj", o);
                 uint32_t mn, mx;
                 gen_range(g, mn, mx);
+                if (k == ADDR && g.m[o].none() && mx > mn && mx - mn <= 4096 && r.chance(1, 2)) {
+                    // long enough for the run shortcut, keeping one end where it was
+                    uint32_t len = (uint32_t)r.range(4097, 9000);
+                    if (r.chance(1, 2) && mn + len <= 65535) mx = mn + len;
+                    else if (mx >= len) mn = mx - len;
+                    else mx = mn + len <= 65535 ? mn + len : 65535;
+                }
+                if (k == ADDR && g.m[o].none() && mx > mn && mx - mn > 4096) g.is_run[o] = 2; // set below to 1
+
                 op.set("min", mn);
                 op.set("max", mx);
                 for (uint32_t v = mn; v < mx; v++) g.m[o].set(v, k == ADDR);
@@ -196,13 +262,19 @@ class BitmapHist : public Engine {
                 op.kind = "clear";
                 op.set("obj", o);
                 g.m[o].reset();
+                next_special = o;
                 break;
             case CLONE: {
                 op.kind = "clone";
                 int src = (int)r.below(NOBJ);
+                if (prev_special >= 0 && r.chance(1, 2)) src = prev_special;
                 op.set("dst", o);
                 op.set("src", src);
                 g.m[o] = g.m[src];
+                next_special = o;
+                // perturb the clone a little, then combine it with its origin: operands that
+                // share most of their members
+                if (r.chance(1, 2) && i + 4 < nops) pending_perturb = (int)r.range(1, 3), perturb_obj = o, perturb_src = src;
                 break;
             }
             case ADDMANY: {
@@ -232,6 +304,18 @@ class BitmapHist : public Engine {
                 int which = (int)r.below(4);
                 op.kind = names[which];
                 int a = (int)r.below(NOBJ), b = (int)r.below(NOBJ); // may alias
+                if (prev_special >= 0) (r.chance(1, 2) ? a : b) = prev_special;
+                { // two run containers meet
+                    int runs[NOBJ], nr = 0;
+                    for (int t = 0; t < NOBJ; t++)
+                        if (g.is_run[t] == 1) runs[nr++] = t;
+                    if (nr >= 2 && r.chance(2, 3)) {
+                        a = runs[r.below((uint64_t)nr)];
+                        do b = runs[r.below((uint64_t)nr)];
+                        while (b == a);
+                    } else if (nr >= 1 && r.chance(1, 4))
+                        (r.chance(1, 2) ? a : b) = runs[r.below((uint64_t)nr)];
+                }
                 op.set("dst", o);
                 op.set("a", a);
                 op.set("b", b);
@@ -246,8 +330,10 @@ class BitmapHist : public Engine {
                 break;
             }
             case RELOAD:
+                if (prev_special >= 0 && r.chance(1, 2)) o = prev_special;
                 op.kind = "reload";
                 op.set("obj", o);
+                next_special = o;
                 break;
             case LAND: {
                 op.kind = "land";
@@ -266,6 +352,12 @@ class BitmapHist : public Engine {
             }
             }
             p.ops.push_back(op);
+            prev_special = next_special;
+            for (int t = 0; t < NOBJ; t++) {
+                if (g.is_run[t] == 2) g.is_run[t] = 1;
+                else if (g.is_run[t] == 1 && (op.u("obj", 99) == (uint64_t)t || op.u("dst", 99) == (uint64_t)t) && op.kind != "reload")
+                    g.is_run[t] = 0;
+            }
         }
         if (faults_) {
             // one operation gets every k; sometimes further ops get a single fault
@@ -300,7 +392,7 @@ class BitmapHist : public Engine {
     // -------------------------------------------------------------- oracle
     // compares the object's answers with a set; returns false and fills f
     bool check_equals(varintBitmap *vb, const Set &m, const char *what, Fail &f, bool sweep,
-                      const std::vector<uint32_t> &probes) {
+                      const std::vector<uint32_t> &probes, bool export_too = true) {
         size_t mc = m.count();
         uint32_t card = varintBitmapCardinality(vb);
         if (card != mc) {
@@ -344,8 +436,8 @@ class BitmapHist : public Engine {
                        std::to_string(mc);
             return false;
         }
-        // array export
-        if (card <= 65536) {
+        // array export (same iteration underneath: checked where state changed shape, and at the end)
+        if (card <= 65536 && (sweep || export_too)) {
             uint32_t cnt = varintBitmapToArray(vb, outbuf_);
             if (cnt != mc) {
                 f.cls = "iteration";
@@ -432,6 +524,40 @@ class BitmapHist : public Engine {
                     return false;
                 }
                 expect++;
+                // the bookkeeping must describe the block that is really there
+                size_t have = alloc::size_of(c), need = 0;
+                std::string what;
+                switch (vb->type) {
+                case VARINT_BITMAP_ARRAY:
+                    need = (size_t)vb->container.array.capacity * sizeof(uint16_t);
+                    what = "array capacity " + std::to_string(vb->container.array.capacity);
+                    if (vb->cardinality > vb->container.array.capacity) {
+                        f.cls = "inconsistent-object";
+                        f.detail = "cardinality " + std::to_string(vb->cardinality) + " exceeds array capacity " +
+                                   std::to_string(vb->container.array.capacity);
+                        return false;
+                    }
+                    break;
+                case VARINT_BITMAP_BITMAP:
+                    need = VARINT_BITMAP_BITMAP_SIZE;
+                    what = "bitmap container";
+                    break;
+                case VARINT_BITMAP_RUNS:
+                    need = (size_t)vb->container.runs.capacity * 2 * sizeof(uint16_t);
+                    what = "runs capacity " + std::to_string(vb->container.runs.capacity);
+                    if (vb->container.runs.numRuns > vb->container.runs.capacity) {
+                        f.cls = "inconsistent-object";
+                        f.detail = "numRuns exceeds runs capacity";
+                        return false;
+                    }
+                    break;
+                }
+                if (have < need) {
+                    f.cls = "inconsistent-object";
+                    f.detail = what + " needs " + std::to_string(need) + " bytes but the container block has " +
+                               std::to_string(have);
+                    return false;
+                }
             }
         }
         if (alloc::live_count() != expect) {
@@ -805,9 +931,20 @@ class BitmapHist : public Engine {
             stat(std::string("op.") + k);
             stat(std::string("op_on.") + type_name(type_before));
             if (checking || faulted) {
-                bool sweep = trans || k == "sweep" || k == "reload" || oi + 1 == plan.ops.size() || fired;
+                bool sweep = k == "sweep" || oi + 1 == plan.ops.size() || fired;
+                bool near = trans || k == "reload"; // members and their neighbours
                 Fail cf;
-                if (!check_equals(vb, m, "after the operation", cf, sweep, probes_for(op))) {
+                std::vector<uint32_t> probes = probes_for(op);
+                if (near && !sweep) {
+                    stat("probe.member_neighbour_sweep");
+                    size_t cnt = 0;
+                    for (size_t v = m._Find_first(); v < 65536 && cnt < 20000; v = m._Find_next(v), cnt++) {
+                        probes.push_back((uint32_t)v);
+                        if (v > 0 && !m[v - 1]) probes.push_back((uint32_t)v - 1);
+                        if (v < 65535 && !m[v + 1]) probes.push_back((uint32_t)v + 1);
+                    }
+                }
+                if (!check_equals(vb, m, "after the operation", cf, sweep, probes, near || (oi % 3) == 0)) {
                     failed(fired ? "wrong-success" : cf.cls, cf.detail);
                     break;
                 }
